@@ -96,6 +96,15 @@ CHECKS = {
     "C05": chk([e1("seq", 1)], SEQ_RULE, "Seeded histories; Dataset::validate plus manifest invariants after every commit."),
     "C06": chk([e1("seq", 1)], SEQ_RULE, "Seeded histories; every old version re-read by a fresh party after later steps must equal its snapshot; disk-level monitor that no referenced object changes bytes."),
     "C07": chk([e1("seq", 1)], SEQ_RULE, "Seeded histories with restores; restored version equals the model of the old version; row ids never re-issued."),
+    "C09": chk([e1("refs", 1)],
+               "one run = a seeded history of reference operations on one table: writes on main and on branches, create_branch from arbitrary (branch, version) with "
+               "prefix-related hierarchical names drawn from a small cluster (a, ab, a/b, abc, a/b/c, ...), delete_branch, tag create/update/delete, shallow clones "
+               "with writes; plus 150 random name strings per run compared with an independent implementation of the documented grammar; distinct = distinct "
+               "operation-kind sequences; non-trivial = >= 3 operations",
+               "Seeded histories; after every operation every other reference (main, each branch head and one older version, each tag, each clone) is re-read by a fresh "
+               "party and must equal the model; tags resolve to the (branch, version) they were set to; the store's delete log shows a branch deletion touching no "
+               "object owned by main or by another live branch.",
+               required_probes=["branch-deleted-with-files"]),
     "C10": chk([e2(3, handler="external"), e2(1, handler="external", amb=1), e1("crash", 1, handler="external")], E2_RULE,
                "Seeded interleavings of two-three writers and readers through stage/put_if_not_exists/copy/put_if_exists/delete with "
                "crashes and errors at every step and stale external reads; all resolvers of a version read the same bytes; "
@@ -143,7 +152,7 @@ CHECKS = {
 }
 
 # properties whose checks are registered in MANIFEST.json (clean on the unchanged tree)
-REGISTERED = ["C01", "C02", "C03", "C04", "C05", "C06", "C07", "C10", "C11", "C12", "C13", "C14", "C15", "C16", "C17", "C18", "C19", "C20", "C24", "C30", "C31", "C33", "C37", "C39", "C41"]
+REGISTERED = ["C01", "C02", "C03", "C04", "C05", "C06", "C07", "C09", "C10", "C11", "C12", "C13", "C14", "C15", "C16", "C17", "C18", "C19", "C20", "C24", "C30", "C31", "C33", "C37", "C39", "C41"]
 
 PURE = "pure function of its inputs: no task, timer, storage call, clock, fault or second party for a scheduler or fault injector to decide (DESIGN.md section 6)"
 NOT_APPLICABLE = {
